@@ -151,7 +151,8 @@ func searchIndex(p *binary.BinaryProtocol, idx int, elementWireType proto.WireTy
 	p.Read -= tagLen
 	for {
 		if cnt == idx {
-			return p.Read + tagLen, nil
+			// the address of an unpacked element is its tag position (see updateByteLen)
+			return p.Read, nil
 		}
 		p.Read += tagLen
 		if err := p.Skip(elementWireType, false); err != nil {
